@@ -316,6 +316,47 @@ def genC19Op (lims : List Nat) (maxObjs : Nat) : G Unit := do
     emit s!"dtor {o.1} {← pick dtorWords}"
   else genAlloc maxObjs
 
+/-- a reference `ctx -> o` if it keeps the holder graph acyclic -/
+def tryRef (ctx o : Nat) : G Unit := do
+  let g ← get
+  match slotId g.d ctx, slotId g.d o with
+  | some c, some i => if !(hdesc g.d.s i).contains c then emit s!"ref {ctx} {o}"
+  | _, _ => pure ()
+
+/-- structured start of a c01 history: a subtree of depth 3-4 under object 1 with references from
+sibling branches inside the subtree and from a context outside it, several refusing destructors,
+then the subtree is freed / unlinked / its children are freed.  Reaches repeated promotion (the
+context of the first reference is itself inside the freed subtree), several `throw_child` in one
+call and `talloc_free_children` over referenced children. -/
+def genDeepSetup : G Unit := do
+  emit "alloc 0 - 0 0"
+  emit s!"alloc 1 0 {← pick SIZES} 0"
+  emit s!"alloc 2 1 {← pick SIZES} 0"
+  emit s!"alloc 3 1 {← pick SIZES} 0"
+  emit s!"alloc 4 2 {← pick SIZES} 0"
+  emit s!"alloc 5 {← pick [2, 3, 4]} {← pick SIZES} 0"
+  emit s!"alloc 6 {← pick [0, 0, 3, 5]} {← pick SIZES} 0"
+  emit "alloc 7 0 0 0"
+  modify fun g => { g with nextSlot := 8 }
+  -- references: from a sibling branch inside, from outside, from the parent itself
+  let nref := 1 + (← below 4)
+  for _ in [0:nref] do
+    let o ← pick [2, 4, 4, 5, 5, 6]
+    let c ← pick [3, 3, 7, 7, 0, 1, 5, 6]
+    if c != o then tryRef c o
+  -- destructors
+  let ndt := ← below 4
+  for _ in [0:ndt] do
+    emit s!"dtor {← pick [2, 3, 4, 5, 6]} {← pick ["refuse 1", "refuse 1", "refuse 2", "accept", "reenter"]}"
+  -- the call under test
+  let k ← below 6
+  if k == 0 then emit "free 1"
+  else if k == 1 then emit "unlink 0 1"
+  else if k == 2 then emit "fchildren 1"
+  else if k == 3 then emit "fchildren 0"
+  else if k == 4 then emit s!"free {← pick [2, 3]}"
+  else emit "free 0"
+
 def genCase (profile : String) : G Unit := do
   emit "#case"
   if profile == "c19" then
@@ -328,6 +369,7 @@ def genCase (profile : String) : G Unit := do
       if (← get).lines.size > before then probeAll lims
   else
     if ← chance 1 4 then emit "nullon"
+    if ← chance 1 4 then genDeepSetup
     let n := 1 + (← below 60)
     for _ in [0:n] do genOp 12
 
